@@ -10,6 +10,7 @@ import (
 	"crypto/sha256"
 	"encoding/hex"
 	"fmt"
+	"io"
 	"sort"
 	"sync"
 
@@ -23,8 +24,8 @@ import (
 
 // Universe maps model object names to real digests and back.
 type Universe struct {
-	byName   map[string][]byte
-	byHash   map[string]string // hash string -> name
+	byName map[string][]byte
+	byHash map[string]string // hash string -> name
 }
 
 func NewUniverse(names []string) *Universe {
@@ -235,3 +236,28 @@ func (b *ModelBackend) FindMissing(ctx context.Context, digests digest.Set) (dig
 func (b *ModelBackend) GetCapabilities(ctx context.Context, instanceName digest.InstanceName) (*remoteexecution.ServerCapabilities, error) {
 	return &remoteexecution.ServerCapabilities{}, nil
 }
+
+// identitySlicer returns the parent as the child.
+type identitySlicer struct{}
+
+func (identitySlicer) Slice(b buffer.Buffer, childDigest digest.Digest) (buffer.Buffer, []slicing.BlobSlice) {
+	return b, nil
+}
+
+// countingReader is an upload source that counts Close calls.
+type countingReader struct {
+	data   []byte
+	pos    int
+	closed int
+}
+
+func (r *countingReader) Read(p []byte) (int, error) {
+	if r.pos >= len(r.data) {
+		return 0, io.EOF
+	}
+	n := copy(p, r.data[r.pos:])
+	r.pos += n
+	return n, nil
+}
+
+func (r *countingReader) Close() error { r.closed++; return nil }
